@@ -392,6 +392,13 @@ static int vi_off2col(struct lbuf *lb, int row, int off)
 	return ln ? ren_pos(ln, off) : 0;
 }
 
+/* the column of the last cell of the character commands act on */
+static int vi_curcol(void)
+{
+	char *ln = lbuf_get(xb, xrow);
+	return ren_cursor(ln, vi_off2col(xb, xrow, ren_noeol(ln, xoff)));
+}
+
 static int vi_nextoff(struct lbuf *lb, int dir, int *row, int *off)
 {
 	int o = *off + dir;
@@ -1795,7 +1802,7 @@ static void vi(void)
 		vi_wfix();
 		if (mod)
 			xcol = vi_off2col(xb, xrow, xoff);
-		n = ren_cursor(lbuf_get(xb, xrow), xcol);	/* where the cursor is drawn */
+		n = vi_curcol();	/* where the cursor is drawn */
 		if (n >= xleft + xcols)
 			xleft = n - xcols / 2;
 		if (n < xleft)
@@ -1836,8 +1843,7 @@ static void vi(void)
 			if (vi_msg[0])
 				vi_drawmsg();
 		}
-		term_pos(xrow - xtop, vi_pos(lbuf_get(xb, xrow),
-				ren_cursor(lbuf_get(xb, xrow), xcol)));
+		term_pos(xrow - xtop, vi_pos(lbuf_get(xb, xrow), vi_curcol()));
 		term_commit();
 		lbuf_modified(xb);
 	}
